@@ -344,4 +344,4 @@ mod test {
 
 #[cfg(kani)]
 #[path = "/verif/kani/stats.rs"]
-mod verif_kani;
+pub(crate) mod verif_kani;
